@@ -52,7 +52,9 @@ def currentCfg : Cfg :=
     schema := schemaVariantOf C09.schemaGenFieldCalls C09.schemaGenTagKeyCalls
     seqWriteThrough := seqWriteThroughOf C09.seqHelperCalls
       [C09.seqGenNamespaceSeqCalls, C09.seqGenMetricNameSeqCalls, C09.seqGenTagKeySeqCalls, C09.seqGenTagValueSeqCalls]
-    seriesLimitFirst := seriesLimitFirstOf C09.indexGenSeriesCalls }
+    seriesLimitFirst := seriesLimitFirstOf C09.indexGenSeriesCalls
+    schemaMarkWritten := C09.schemaFlushCalls.contains "λ:value.MarkPersistedPrefix" &&
+      !C09.schemaFlushCalls.contains "λ:value.MarkPersisted" }
 
 /-- default limits as the source has them now -/
 def currentLimits : Limits :=
